@@ -447,12 +447,12 @@ def framing(ctx, bw, rd):
 
 
 # rejection sites of the container reader (all features): reviewed once, each is a spec violation of the input
-REJECT_REVIEWED = 11
+REJECT_REVIEWED = 12
 REJECT_REASONS = [
     'header: magic mismatch (NotAvroObjectContainerFile)',
     'block header: negative object count / negative byte size (2 conversion errors)',
     'block end: sync marker mismatch; reader reused after an error (Broken)',
-    'snappy: block size < 4, decompression error, decompressed length mismatch, CRC mismatch (4)',
+    'snappy: block size < 4, decompression error, decompressed length mismatch, CRC mismatch, decompressed data left after the announced objects (5)',
     'zstandard: driving the decoder to its end fails / leaves data (2)',
 ]
 
